@@ -335,10 +335,10 @@ impl Check for ProgCheck {
 
     fn shard(&self, ctx: &mut ShardCtx) {
         let cases = match self.kind {
-            Kind::Reclaim => ctx.tier.pick(1_800, 40_000),
-            Kind::Prune => ctx.tier.pick(2_500, 50_000),
-            Kind::Scope => ctx.tier.pick(2_500, 50_000),
-            Kind::Arrays => ctx.tier.pick(2_000, 32_000),
+            Kind::Reclaim => ctx.tier.pick(5_000, 80_000),
+            Kind::Prune => ctx.tier.pick(7_000, 100_000),
+            Kind::Scope => ctx.tier.pick(7_000, 100_000),
+            Kind::Arrays => ctx.tier.pick(6_000, 80_000),
         };
         let profile = self.profile();
         crate::prop::run(ctx, profile, cases, tape_strategy(700), |ctx, tape| {
